@@ -18,7 +18,6 @@ import (
 	"net"
 
 	"github.com/honeytrap/honeytrap/event"
-	"github.com/honeytrap/honeytrap/listener"
 	"github.com/honeytrap/honeytrap/pushers"
 	"io"
 )
@@ -45,7 +44,9 @@ func (s *echoService) SetChannel(c pushers.Channel) {
 }
 
 func (s *echoService) Handle(ctx context.Context, conn net.Conn) error {
-	if _, ok := conn.(*listener.DummyUDPConn); !ok {
+	// the server wraps every connection: a datagram is told by the address,
+	// not by the concrete type of the connection
+	if conn.RemoteAddr().Network() != "udp" {
 		_, err := io.Copy(conn, conn)
 		return err
 	}
